@@ -90,6 +90,9 @@ type ScanCut struct {
 
 func (c *Cluster) metaRowsLocked() []Row {
 	var rows []Row
+	if c.MetaMode == "empty" {
+		return nil
+	}
 	for _, r := range c.Regions {
 		if r.Online {
 			rows = append(rows, MetaRow(r))
@@ -146,6 +149,11 @@ func (c *Cluster) selectRowsLocked(r *Region, meta bool, s *pb.Scan) []Row {
 
 func (c *Cluster) serveScan(rs *RS, sc *ServerConn, req *Request, p *pb.ScanRequest, name []byte) {
 	c.mu.Lock()
+	if c.MetaMode == "silent" && bytes.Equal(name, []byte("hbase:meta,,1")) {
+		c.mu.Unlock()
+		c.Trace.Emit("silent", "conn", sc.ID, "id", int(req.CallID))
+		return
+	}
 	var scn *regionScanner
 	callNo := 1
 	if p.ScannerId != nil {
